@@ -30,7 +30,7 @@ def meta(tier):
     return {
         'level': 'exploration',
         'rule': (f'all ordered pairs of line lists of length <= {k} over the alphabet {{a, b, c}} ({n} lists, {n * n} pairs) passed as arrays; '
-                 'seeded random pairs up to 40 lines passed as arrays, as LF-joined and CRLF-joined strings, as one array and one string, as arrays whose elements hold several lines, and as arrays with CR-ending elements (with edits: '
+                 'seeded random pairs up to 40 lines passed as arrays, as LF-joined, CRLF-joined and mixed LF/CRLF strings, as one array and one string, as arrays whose elements hold several lines, and as arrays with CR-ending elements (with edits: '
                  'insert/delete/replace/duplicate/move). diffLines is loaded once per process with include <diff.bare> through the CLI\'s '
                  'system-include fetcher and called through its global binding. Every shipped include must parse, validate and lint '
                  'clean. Non-trivial: left != right and both non-empty; distinct = distinct (left, right, form).'),
@@ -61,7 +61,8 @@ def chunked(lines, rnd):
     i = 0
     while i < len(lines):
         k = rnd.randint(1, 3)
-        out.append(rnd.choice(['\n', '\r\n']).join(lines[i:i + k]))
+        part = lines[i:i + k]
+        out.append(''.join(ln + (rnd.choice(['\n', '\r\n']) if j < len(part) - 1 else '') for j, ln in enumerate(part)))
         i += k
     return out
 
@@ -71,6 +72,17 @@ def check_pair(left, right, form, fn, options, acc, chunk_seed=0):
     if form == 'chunks':
         r = random.Random(chunk_seed)
         a, b = chunked(left, r), chunked(right, r)
+    elif form == 'mixed':
+        # ONE text that mixes both line-end styles (a Unix file with lines pasted from a Windows editor)
+        r = random.Random(chunk_seed)
+
+        def mix(lines):
+            return ''.join(ln + (r.choice(['\n', '\r\n']) if i < len(lines) - 1 else '') for i, ln in enumerate(lines))
+        a, b = mix(left), mix(right)
+        if not left:
+            left = ['']
+        if not right:
+            right = ['']
     elif form == 'array':
         a, b = list(left), list(right)
     elif form in ('array-str', 'str-array'):
@@ -199,6 +211,8 @@ def run_shard(spec, acc):
                 right = [rnd.choice(words) for _ in range(rnd.randint(0, 40))]
             form = rnd.choice(['array', 'lf', 'crlf', 'array-str', 'str-array'])
             check_pair(left, right, form, fn, options, acc)
+            if rnd.random() < 0.3 and len(left) >= 3:
+                check_pair(left, right, 'mixed', fn, options, acc, chunk_seed=rnd.randint(0, 10 ** 6))
             if rnd.random() < 0.3:
                 # array elements that end in (or contain) a bare CR are lines of their own: CR is only part of a CRLF line end
                 crw = ['alpha\r', '\r', 'a\rb', 'x', 'y', '']
@@ -209,7 +223,7 @@ def run_shard(spec, acc):
             if rnd.random() < 0.25 and len(left) >= 2 and len(right) >= 2:
                 # array elements may themselves hold several lines (LF or CRLF inside an element)
                 check_pair(left, right, 'chunks', fn, options, acc, chunk_seed=rnd.randint(0, 10 ** 6))
-        acc.sample({'forms': ['array', 'lf', 'crlf', 'array-str', 'str-array', 'chunks', 'array with CR-ending elements'], 'max_lines': 40}, limit=1)
+        acc.sample({'forms': ['array', 'lf', 'crlf', 'mixed LF/CRLF in one text', 'array-str', 'str-array', 'chunks', 'array with CR-ending elements'], 'max_lines': 40}, limit=1)
 
 
 def replay(spec, acc):
